@@ -200,6 +200,34 @@ let strlib_mode inp outp =
     | "roundtrip" :: b :: _ ->
         let (t, r) = roundtrip_obs (z_of_hex b) in
         Printf.fprintf oc "txt %s num %s\n" (hex t) (hex64_of_z r)
+    | "upper" :: s :: _ -> Printf.fprintf oc "str %s\n" (hex (to_upper (unhex s)))
+    | "lower" :: s :: _ -> Printf.fprintf oc "str %s\n" (hex (to_lower (unhex s)))
+    | "casemap" :: lo :: hi :: _ ->
+        (* through the string-level functions on the encoded character, as the harness does *)
+        let b = Buffer.create 4096 in
+        Buffer.add_string b "cm";
+        let decode_all (l : z list) =
+          (* UTF-8 bytes (valid by CaseMapProofs.to_upper_valid_utf8) back to code points, for printing *)
+          let rec go acc = function
+            | [] -> List.rev acc
+            | x :: t ->
+                let x = int_of_z x in
+                if x < 0x80 then go (x :: acc) t
+                else
+                  let n, v0 = if x < 0xE0 then 1, x land 0x1F else if x < 0xF0 then 2, x land 0x0F else 3, x land 0x07 in
+                  let rec take k v l = if k = 0 then (v, l) else
+                    match l with y :: l' -> take (k - 1) ((v lsl 6) lor (int_of_z y land 0x3F)) l' | [] -> failwith "casemap: truncated" in
+                  let (v, rest) = take n v0 t in go (v :: acc) rest in
+          go [] l in
+        let seq l = String.concat "." (List.map (Printf.sprintf "%x") l) in
+        for cp = int_of_string lo to int_of_string hi - 1 do
+          if not (cp >= 0xD800 && cp <= 0xDFFF) then begin
+            let e = encode (z_of_int cp) in
+            let u = decode_all (to_upper e) and l = decode_all (to_lower e) in
+            if u <> [cp] || l <> [cp] then Buffer.add_string b (Printf.sprintf " %x:%s:%s" cp (seq u) (seq l))
+          end
+        done;
+        Printf.fprintf oc "%s\n" (Buffer.contents b)
     | "ws" :: lo :: hi :: _ ->
         let b = Buffer.create 64 in
         Buffer.add_string b "ws";
